@@ -72,8 +72,29 @@ func cmdSSA(args []string) {
 func cmdList(args []string) {
 	fs := flag.NewFlagSet("list", flag.ExitOnError)
 	repo := fs.String("repo", "/repo", "repository")
+	uncov := fs.Bool("uncovered", false, "list the functions of the module that have no contract (neither verified nor inlined by declaration)")
 	fs.Parse(args)
 	P := mustLoad(*repo)
+	if *uncov {
+		var out []string
+		for k, f := range P.byName {
+			if !strings.HasPrefix(k, modPath) || len(f.Blocks) == 0 || strings.Contains(k, "/testcases") || strings.Contains(k, "$bound") || strings.Contains(k, "$thunk") {
+				continue
+			}
+			if _, ok := P.contracts[f]; ok {
+				continue
+			}
+			if f.Synthetic != "" || strings.HasSuffix(f.Name(), "init") {
+				continue
+			}
+			out = append(out, shortFuncName(f))
+		}
+		sort.Strings(out)
+		for _, n := range out {
+			fmt.Println(n)
+		}
+		return
+	}
 	var names []string
 	for fn, c := range P.contracts {
 		names = append(names, fmt.Sprintf("%-70s %v", shortFuncName(fn), c.Props))
